@@ -55,3 +55,8 @@ Definition normalize_os_path (m : string) : string :=
   if String.prefix "genericpath" first || String.prefix "ntpath" first || String.prefix "posixpath" first then
     match rest with None => "os.path" | Some r => "os.path." ++ r end
   else m.
+
+(* xs[i] on a call's argument list (the checks guard such accesses by a pattern or a truth test), and `if xs:` *)
+Definition nth_arg (i : nat) (args : list (argkind * option string * expr)) : expr :=
+  match nth_error args i with Some (_, _, e) => e | None => no_expr end.
+Definition is_nil {A} (l : list A) : bool := match l with [] => true | _ => false end.
